@@ -166,6 +166,21 @@ def _match(finding: dict, key: str) -> bool:
     return key == k
 
 
+def raised_by_implementation(e: BaseException) -> str | None:
+    """Name of the innermost function of the library under test in the traceback if the exception was raised there (and not by harness
+    code called back from it), else None."""
+    import traceback as _tb
+    frames = _tb.extract_tb(e.__traceback__)
+    if not frames:
+        return None
+    last = frames[-1].filename.replace("\\", "/")
+    if "/glotaran/" in last or any(part in last for part in ("/numpy/", "/scipy/", "/xarray/", "/numba/", "/pandas/")):
+        inner = [f for f in frames if "/glotaran/" in f.filename.replace("\\", "/")]
+        if inner:
+            return inner[-1].name
+    return None
+
+
 LIVE = None      # the Check of the run in progress
 
 
